@@ -235,7 +235,16 @@ def run_sql(ck):
     short_bad = [c for c in allc if c.get("sql") and RE_M15.search(c["sql"][0]) and c.get("m15_spec") is False]
     ck.obligation("spec oracle: the implementation reads metrics_15s only for queries whose every stage is answerable from it (m15_representable)",
                   not short_bad, "; ".join(c["query"] for c in short_bad[:3]))
-    if short_bad:
+    range_bad = [c for c in short_bad if ((c.get("facts") or {}).get("dur_ns") or 0) % 15000000000 or ((c.get("facts") or {}).get("dur_ns") or 0) < 15000000000]
+    if range_bad:
+        worst = min(range_bad, key=lambda c: len(c["query"]))
+        d = worst["facts"]["dur_ns"]
+        ck.violation({"property": "C08", "part": "shortcut_only_whole_slots", "kind": "the plan reads the 15-second roll-up table for a range that is not made of whole 15 s slots: a row of the table stands for a whole slot and is put into the window of the slot's START, so lines behind a window border inside their slot are counted in the window before",
+                      "case": witness_rows(worst, "range %d ns: %d ns remain after the last whole 15 s slot (m15_representable is false), yet the SQL selects FROM metrics_15s" % (d, d % 15000000000)),
+                      "sql": worst["sql"][0][:3000],
+                      "failing_input": "one stream matching the selector with one line at t = %d ns (the start of the second range window; it lies inside the 15 s slot starting at %d ns, which begins in the first window): the definition reports the point (t = %d, count 1), the statement the point (t = 0, count 1); the execution part of this check reports such a database with both answers when its generator draws this shape" % (d, d // 15000000000 * 15000000000, d),
+                      "replay": "harness logqlsql --cases <file with this case>"})
+    elif short_bad:
         worst = min(short_bad, key=lambda c: len(c["query"]))
         ck.violation({"property": "C08", "part": "every_stage_takes_effect", "kind": "a pipeline stage written in the query has no effect: the plan reads the 15-second roll-up table, which holds neither lines nor extracted labels",
                       "case": witness_rows(worst, "m15_representable (model/LogqlMetricSem.v) is false for this query, yet the SQL selects FROM metrics_15s"),
@@ -462,6 +471,108 @@ def harness_cases(ck, name, cases):
     return [json.loads(l) for l in open(outp)]
 
 
+def _split_top(s, seps):
+    """positions in s (outside quotes, back-quotes, parentheses, brackets) where one of the separators starts"""
+    pos, depth, q, i = [], 0, None, 0
+    while i < len(s):
+        ch = s[i]
+        if q:
+            if ch == "\\" and q == '"':
+                i += 1
+            elif ch == q:
+                q = None
+        elif ch in '"`':
+            q = ch
+        elif ch in "([{":
+            depth += 1
+        elif ch in ")]}":
+            depth -= 1
+        elif depth == 0:
+            for sp in seps:
+                if s.startswith(sp, i):
+                    pos.append(i)
+                    break
+        i += 1
+    return pos
+
+
+def query_reductions(q):
+    """smaller variants of a metric query, by crude text surgery: every candidate goes through the real parser and planners and the
+    execution again, so a candidate that is no query (or no longer fails) is simply not taken"""
+    out = []
+    q = q.strip()
+    m = re.search(r"\s*(==|!=|>=|<=|>|<)\s*[0-9.]+\s*$", q)
+    if m and q[:m.start()].rstrip().endswith(")"):
+        out.append(q[:m.start()])
+    m = re.match(r"^(topk|bottomk)\s*\(\s*[0-9.]+\s*,\s*(.*)\)\s*$", q, re.S)
+    if m:
+        out.append(m.group(2))
+    m = re.match(r"^(sum|min|max|avg|stddev|stdvar|count)(\s+(by|without)\s*\([^)]*\))?\s*\((.*)\)\s*(by|without)\s*\([^)]*\)\s*$", q, re.S) or \
+        re.match(r"^(sum|min|max|avg|stddev|stdvar|count)(\s+(by|without)\s*\([^)]*\))?\s*\((.*)\)\s*$", q, re.S)
+    if m:
+        out.append(m.group(4))
+    for mm in re.finditer(r"\s+(by|without)\s*\([^)]*\)", q):
+        out.append(q[:mm.start()] + q[mm.end():])
+    # the stream selector and its pipeline: {matchers} stage stage ... [range]
+    a = q.find("{")
+    if a >= 0:
+        b = a + 1
+        qq = None
+        while b < len(q) and (qq or q[b] != "}"):
+            if qq:
+                if q[b] == "\\" and qq == '"':
+                    b += 1
+                elif q[b] == qq:
+                    qq = None
+            elif q[b] in '"`':
+                qq = q[b]
+            b += 1
+        e = q.find("[", b)
+        if b < len(q) and e > b:
+            ms, ppl = q[a + 1:b], q[b + 1:e]
+            cut = [0] + [x + 1 for x in _split_top(ms, [","])] + [len(ms) + 1]
+            parts = [ms[cut[i]:cut[i + 1] - 1] for i in range(len(cut) - 1)]
+            if len(parts) > 1:
+                for i in range(len(parts)):
+                    out.append(q[:a + 1] + ",".join(parts[:i] + parts[i + 1:]) + q[b:])
+            st = _split_top(ppl, ["|=", "!=", "|~", "!~", "| "])
+            # a stage starts at a pipe / filter operator that follows a space (the operators inside a label filter do not)
+            st = [x for x in st if x == 0 or ppl[x - 1] == " "] + [len(ppl)]
+            for i in range(len(st) - 1):
+                out.append(q[:b + 1] + ppl[:st[i]].rstrip() + " " + ppl[st[i + 1]:] + q[e:])
+    seen, res = {q}, []
+    for x in out:
+        x = re.sub(r"\s+", " ", x).strip()
+        if x not in seen:
+            seen.add(x)
+            res.append(x)
+    return res
+
+
+def shrink_query(ck, xr, c, k):
+    """greedy shrinking of the QUERY of a violating case over its database: take the first reduction (threshold, outer operator,
+    grouping clause, matcher, pipeline stage removed) under which the implementation's statement still answers something else than the
+    definition under both tie orders; repeat"""
+    q = c["query"]
+    for rnd in range(10):
+        cands = query_reductions(q)
+        if not cands:
+            break
+        hc = harness_cases(ck, "shrinkq", [{"id": j + 1, "query": x, "ctx": c["ctx"], "dbs": [c["dbs"][k]]} for j, x in enumerate(cands)])
+        hc = [x for x in (hc or []) if x.get("dbs_ml") and x.get("script_ml") and x.get("sql") and x.get("sql_tree_ml")]
+        if not hc:
+            break
+        rc, out = xr.run("logqlx_shrinkq%d" % rnd, hc)
+        if rc != 0:
+            break
+        r = parse_exec_out(out)
+        hit = [x for x in hc if r["verd"].get((x["id"], 0)) == (1, 1)]
+        if not hit:
+            break
+        q = min(hit, key=lambda x: len(x["query"]))["query"]
+    return q
+
+
 def shrink_db(ck, xr, c, k, r0):
     """greedy shrinking of the database of a violating case: drop one stored line or one series (with its lines) at a time while
     the implementation's statement still answers something else than the definition under BOTH tie orders"""
@@ -516,7 +627,16 @@ def judge_exec(ck, xr, run, label):
     tbad_ids = {c["id"] for c in tbad}
     hist = {"agree": 0, "tie-dependent": 0, "differ": 0, "not-evaluated": 0, "no-reference": 0, "shortcut-window-unaligned": 0, "text-not-rendered": 0}
     differ, noeval, distinct = [], [], set()
-    unaligned = lambda i: r["m15"].get(i) and (byid[i]["ctx"]["from_ns"] % 15000000000 or byid[i]["ctx"]["to_ns"] % 15000000000)
+    # ... unless the RANGE is not made of whole 15 s slots: no window can be answered from the roll-up table then (its d-windows are
+    # not unions of slots), a correct planner never reads it, and every window the reader hands over (whole ranges) is unaligned -
+    # such a statement is judged like any other (seed C08-e: the range tested in whole seconds, [15500ms] took the shortcut)
+    def unaligned(i):
+        c = byid[i]
+        if not (r["m15"].get(i) or (c.get("sql") and RE_M15.search(c["sql"][0]))):
+            return False
+        if ((c.get("facts") or {}).get("dur_ns") or 0) % 15000000000:
+            return False
+        return bool(c["ctx"]["from_ns"] % 15000000000 or c["ctx"]["to_ns"] % 15000000000)
     for (i, k), (v1, v2) in sorted(r["verd"].items()):
         c = byid[i]
         if i in tbad_ids:
@@ -547,12 +667,20 @@ def judge_exec(ck, xr, run, label):
 
 def exec_violation(ck, xr, c, k, r, shrink=True):
     db, got, want = c["dbs"][k], r["got"].get((c["id"], k)), r["want"].get((c["id"], k))
+    query = c["query"]
     if shrink:
+        query = shrink_query(ck, xr, c, k)
+        if query != c["query"]:
+            hc = harness_cases(ck, "shrunkq", [{"id": c["id"], "query": query, "ctx": c["ctx"], "dbs": [c["dbs"][k]]}])
+            if hc and hc[0].get("sql") and hc[0].get("dbs_ml"):
+                c, k = dict(hc[0], dbs=[c["dbs"][k]]), 0
+                rc, out = xr.run("logqlx_shrunkq", [c])
+                r = parse_exec_out(out) if rc == 0 else r
         db, got, want = shrink_db(ck, xr, c, k, r)
     ck.violation({"property": "C08", "part": "logql_metric_correct", "kind": "the implementation's statement, executed over the database, answers other series / values than the definition",
                   "case": {"query": c["query"], "ctx": c["ctx"], "db": db}, "sql": c["sql"][0][:6000],
                   "got_from_statement": got, "expected_by_definition": want,
-                  "failing_input": "the database of this case (series / stored lines as listed; shrunk greedily: dropping any one line or series makes the two answers equal), query and context as given",
+                  "failing_input": "the database of this case (series / stored lines as listed; shrunk greedily: first the query - threshold, outer operator, grouping clause, matcher or pipeline stage removed while the answers still differ -, then the database: dropping any one line or series makes the two answers equal), query and context as given",
                   "replay": "bin/check C08 --replay <this file>: the query goes through the real parser and planners again, the statement they print is parsed back and executed over the recorded database (model/SqlEvalAgg.v) and compared with metric_ref_db; or send the query to a reader over a ClickHouse holding these rows"})
 
 
@@ -635,7 +763,8 @@ def exec_judged(ck, xr, run, is_replay):
         exec_violation(ck, xr, byid[i], k, r, shrink=not is_replay)
     # ---- a vector aggregation without grouping clause, against the DEFINITION (one series {}): finding agg-without-grouping-keeps-streams
     known = ck.known_findings()
-    nog = [(i, k) for (i, k), v in sorted(vdef.items()) if v == 1 and not r["unaligned"](i)]
+    # (a statement that already misses the reference of the script the planners got is reported above, not here)
+    nog = [(i, k) for (i, k), v in sorted(vdef.items()) if v == 1 and not r["unaligned"](i) and (i, k) not in set(differ)]
     ck.extra["exec_agg_without_grouping_hits"] = len(nog)
     if nog:
         i, k = min(nog, key=lambda ik: (len(byid[ik[0]]["dbs"][ik[1]]["samples"]), len(byid[ik[0]]["query"])))
